@@ -29,7 +29,7 @@ def scope_text(tier):
 def cases(tier, seed):
     for spec in en.scope_specs('SEL-q' if tier == 'quick' else 'SEL-t'):
         yield dict(spec=spec)
-    for fam in (families.cc1, families.con1, families.con3, families.dv1, families.cyc, families.diamond):
+    for fam in (families.cc1, families.con1, families.con3, families.dv1, families.cyc, families.diamond, families.unr):
         for spec in fam(tier):
             yield dict(spec=spec)
 
